@@ -146,20 +146,35 @@ def precheck(root, report):
 
 
 def run_unit(name, scratch, support_dir, tier, seed, rlimit=30, extra_flags=()):
-    """splice + verify; when Verus rejects a call of a repository function that is not under contract (typically a helper an edit
-    introduced), that function is lifted bare (no contract: its callers know nothing about its result) and the unit is re-run"""
-    extra = []
-    for _round in range(4):
-        ur = _run_unit_once(name, scratch, support_dir, tier, seed, rlimit, extra_flags, extra)
-        new = []
+    """splice + verify, with two repair loops that keep one odd function from making the whole unit undecided:
+    * Verus rejects a call of a repository function that is not under contract (typically a helper an edit introduced): that
+      function is lifted bare (no contract: its callers know nothing about its result) and the unit is re-run;
+    * Verus / rustc reject a construct INSIDE a lifted function (unsupported std function, syntax our rules do not cover): that
+      function is degraded (body unverified, contract assumed, its properties undecided) and the unit is re-run."""
+    extra = []; drop = []
+    ur = None
+    for _round in range(6):
+        ur = _run_unit_once(name, scratch, support_dir, tier, seed, rlimit, extra_flags, extra, drop)
+        new = []; newdrop = []
         for d in ur.errors:
             m = re.search(r'cannot use function `([^`]+)` which is ignored', d.get('message', ''))
             if m:
                 loc = _locate_fn(os.path.join(scratch, 'repo'), UNITS[name]['crate'], m.group(1))
                 if loc and loc not in [(a, b) for (a, b, _) in extra] and loc not in new: new.append(loc)
-        if not new: return ur
+                continue
+            if classify_message(d.get('message', '')) == 'other':
+                # not a verification failure: which lifted fn does it sit in?
+                for sp in sorted(d.get('spans', []), key=lambda s_: 0 if s_.get('is_primary') else 1):
+                    f, o, ib = locate(ur, sp['file_name'], sp['byte_start'])
+                    if f and not f.startswith('lemma:'):
+                        fi = next((x for x in (ur.report or {}).get('functions', []) if x['key'] == f), None)
+                        if fi and not fi.get('dropped') and (fi['file'], f) not in drop and (fi['file'], f) not in newdrop and fi.get('kind') in ('fn', None, 'lift'):
+                            newdrop.append((fi['file'], f))
+                        break
+        if not new and not newdrop: return ur
         caller_props = sorted({p for f in (ur.report or {}).get('functions', []) for p in (f.get('props') or [])})
         extra += [(a, b, caller_props) for (a, b) in new]
+        drop += newdrop
         snapshot(scratch)
     return ur
 
@@ -189,7 +204,7 @@ def _locate_fn(root, crate, path):
     return None
 
 
-def _run_unit_once(name, scratch, support_dir, tier, seed, rlimit=30, extra_flags=(), extra_lifts=()):
+def _run_unit_once(name, scratch, support_dir, tier, seed, rlimit=30, extra_flags=(), extra_lifts=(), force_drop=()):
     u = UNITS[name]
     root = os.path.join(scratch, 'repo')
     ur = UnitResult(); ur.name = name
@@ -197,7 +212,7 @@ def _run_unit_once(name, scratch, support_dir, tier, seed, rlimit=30, extra_flag
     pre_bad = None
     try:
         # precheck runs on the ORIGINAL sources of the files that will be lifted
-        ur.report = splicer.splice(root, specs, os.path.join(VERIF, 'contracts'), name, extra_lifts)
+        ur.report = splicer.splice(root, specs, os.path.join(VERIF, 'contracts'), name, extra_lifts, force_drop)
     except (splicer.SpliceError, splicer.vspec.VspecError) as e:
         raise Undecided('splice (%s): %s' % (name, e))
     except Exception as e:
@@ -255,7 +270,7 @@ VERIF_MSG = ('postcondition not satisfied', 'precondition not satisfied', 'asser
              'loop invariant not preserved', 'recommendation not met', 'unreachable', 'possible bit shift',
              'index out of bounds', 'constructed value may fail to meet its declared type invariant', 'may fail to meet',
              'cannot show invariant', 'invariant not satisfied before loop', 'invariant not satisfied at end of loop body',
-             'failed this postcondition', 'termination')
+             'failed this postcondition', 'termination', 'unable to prove', 'post-condition of closure', 'pre-condition of closure')
 RESOURCE_MSG = ('rlimit', 'resource limit', 'timed out', 'canceled')
 
 
